@@ -5,6 +5,7 @@ import (
 	"errors"
 	"fmt"
 	"maps"
+	"slices"
 	"sort"
 	"sync"
 
@@ -18,6 +19,15 @@ import (
 	"github.com/bluenviron/mediamtx/internal/metrics"
 	"github.com/bluenviron/mediamtx/internal/servers/hls"
 )
+
+// captureGroups returns the capture groups ($G1, $G2, ...) of the match of a path name
+// against its configuration. Only regular-expression configurations have any.
+func captureGroups(matches []string) []string {
+	if len(matches) <= 1 {
+		return nil
+	}
+	return matches[1:]
+}
 
 func pathConfCanBeUpdated(oldPathConf *conf.Path, newPathConf *conf.Path) bool {
 	clone := oldPathConf.Clone()
@@ -245,7 +255,7 @@ func (pm *pathManager) doReloadConf(newPaths map[string]*conf.Path) {
 
 	// process existing paths
 	for pathName, pa := range pm.paths {
-		newPathConf, _, err := conf.FindPathConf(newPaths, pathName)
+		newPathConf, newMatches, err := conf.FindPathConf(newPaths, pathName)
 		// path does not have a config anymore: delete it
 		if err != nil {
 			pm.doClosePath(pa)
@@ -255,8 +265,9 @@ func (pm *pathManager) doReloadConf(newPaths map[string]*conf.Path) {
 		// path now belongs to a different config
 		if newPathConf.Name != pa.confName {
 			// path config can be hot reloaded
+			// (unless its regular expression captures different groups, that are set at creation only)
 			oldPathConf := pm.pathConfs[pa.confName]
-			if pathConfCanBeUpdated(oldPathConf, newPathConf) {
+			if pathConfCanBeUpdated(oldPathConf, newPathConf) && slices.Equal(captureGroups(newMatches), captureGroups(pa.matches)) {
 				pa.confName = newPathConf.Name
 				go pa.reloadConf(newPathConf)
 				continue
